@@ -111,10 +111,10 @@ Section Bits.
 
   (* The untagged enum: variants are tried in declaration order on the same buffered tree,
        1 OpCode(OpCodes)   2 If{code,pass,fail}   3 Push(hex)   4 PushData(OpCodes, hex)   5 Coinbase(hex)
-     the first that succeeds wins.  The struct variant is visited with deserialize_any: a map is read by field
-     name (a repeated field is an error, unknown fields are ignored, a missing Option field is None, any other
-     missing field an error), a sequence positionally with exactly 3 elements.  The tuple variant needs a
-     sequence of exactly 2 elements.  `fail`: unit/none -> None, anything else must be a sequence. *)
+     the first that succeeds wins.  The struct variant is visited with deserialize_any, and serde_derive gives
+     an untagged struct variant no visit_seq: only a map is accepted, read by field name (a repeated field is an
+     error, unknown fields are ignored, a missing Option field is None, any other missing field an error).
+     The tuple variant needs a sequence of exactly 2 elements.  `fail`: unit/none -> None, anything else must be a sequence. *)
   Fixpoint de_bit (c : content) : option bit :=
     let fix de_bits (l : list content) : option (list bit) :=
       match l with
@@ -157,13 +157,6 @@ Section Bits.
     | None =>
       match (match c with
              | CMap m => if_map m None None None
-             | CSeq [a; CSeq pl; q] =>
-                 opt! o <- de_opcode a; opt! p <- de_bits pl;
-                 match q with
-                 | CNull => Some (BIf o p None)
-                 | CSeq ql => opt! q' <- de_bits ql; Some (BIf o p (Some q'))
-                 | _ => None
-                 end
              | _ => None
              end) with
       | Some b => Some b
@@ -223,13 +216,6 @@ Section Bits.
   Definition try_if (c : content) : option bit :=
     match c with
     | CMap m => if_map m None None None
-    | CSeq [a; CSeq pl; q] =>
-        opt! o <- de_opcode a; opt! p <- de_bits pl;
-        match q with
-        | CNull => Some (BIf o p None)
-        | CSeq ql => opt! q' <- de_bits ql; Some (BIf o p (Some q'))
-        | _ => None
-        end
     | _ => None
     end.
   Definition try_push (c : content) : option bit := opt! d <- de_hex c; Some (BPush d).
@@ -498,6 +484,31 @@ Fixpoint json_of (c : content) : string :=
   | CStr s => quote s
   | CSeq l => "[" +++ jl l +++ "]"
   | CMap m => "{" +++ jm m +++ "}"
+  end.
+
+(* serde_json::to_string_pretty (TxIn::to_json_string, TxOut::to_json_string): two-space indentation,
+   ": " after keys, empty containers as [] and {} *)
+Fixpoint indent (n : nat) : string := match n with O => "" | S k => "  " +++ indent k end.
+Definition nl : string := String (ascii_of_N 10) EmptyString.
+Fixpoint json_pretty (ind : nat) (c : content) : string :=
+  let fix jl (l : list content) : string :=
+    match l with
+    | [] => ""
+    | [x] => indent (S ind) +++ json_pretty (S ind) x +++ nl
+    | x :: r => indent (S ind) +++ json_pretty (S ind) x +++ "," +++ nl +++ jl r
+    end in
+  let fix jm (m : list (string * content)) : string :=
+    match m with
+    | [] => ""
+    | [(k, v)] => indent (S ind) +++ quote k +++ ": " +++ json_pretty (S ind) v +++ nl
+    | (k, v) :: r => indent (S ind) +++ quote k +++ ": " +++ json_pretty (S ind) v +++ "," +++ nl +++ jm r
+    end in
+  match c with
+  | CSeq [] => "[]"
+  | CMap [] => "{}"
+  | CSeq l => "[" +++ nl +++ jl l +++ indent ind +++ "]"
+  | CMap m => "{" +++ nl +++ jm m +++ indent ind +++ "}"
+  | o => json_of o
   end.
 
 (* serde_json::to_value(..).to_string(): objects are BTreeMaps, i.e. keys in byte-wise order *)
